@@ -85,13 +85,14 @@ Record conn := {
   read_after_unbind : nat;            (* requests taken from the input after an Unbind was read *)
   sock_closed : bool;
   onclose : nat;                      (* OnClose calls made for this connection *)
-  wgdone : bool                       (* connWg.Done executed *)
+  wgdone : bool;                      (* connWg.Done executed *)
+  sent : nat                          (* LDAPMessages gldap has put on this connection's wire *)
 }.
 
 Definition new_conn (id : nat) (intr : bool) : conn :=
   {| cid := id; pc := CInit; nreq := 0; nread := 0; input := []; eof := false; stalled := false; interrupted := intr;
      inflight := 0; hs := []; started := []; ended := []; unbind_seen := false; read_after_unbind := 0;
-     sock_closed := false; onclose := 0; wgdone := false |}.
+     sock_closed := false; onclose := 0; wgdone := false; sent := 0 |}.
 
 Inductive lstate := NotCreated | Listening | ClosedL.
 
@@ -155,7 +156,7 @@ Definition set_pc (c : conn) (p : cpc) : conn :=
   {| cid := cid c; pc := p; nreq := nreq c; nread := nread c; input := input c; eof := eof c; stalled := stalled c;
      interrupted := interrupted c; inflight := inflight c; hs := hs c; started := started c; ended := ended c;
      unbind_seen := unbind_seen c; read_after_unbind := read_after_unbind c; sock_closed := sock_closed c;
-     onclose := onclose c; wgdone := wgdone c |}.
+     onclose := onclose c; wgdone := wgdone c; sent := sent c |}.
 
 Fixpoint update_nth {A} (n : nat) (f : A -> A) (l : list A) : list A :=
   match n, l with
@@ -173,6 +174,11 @@ Definition mem_nat (x : nat) (l : list nat) : bool := existsb (Nat.eqb x) l.
 
 (* can a write to this connection's client make progress (or fail at once)? *)
 Definition can_write (c : conn) : bool := negb (stalled c) || interrupted c || eof c.
+
+(* does a write that is attempted now reach the client (else it fails at once)? *)
+Definition delivered (c : conn) : bool := negb (stalled c) && negb (interrupted c) && negb (eof c).
+Definition frame_of (c : conn) (h : hstep) : nat :=
+  match h with HWrite => if delivered c then 1 else 0 | _ => 0 end.
 
 (* is the next step of a handler script enabled? *)
 Definition hstep_enabled (s : state) (c : conn) (h : hstep) : bool :=
@@ -196,7 +202,8 @@ Definition conn_step (cfg : config) (s : state) (c : conn) : option (conn * effe
     let c1 := {| cid := cid c; pc := pc c; nreq := S (nreq c); nread := nread c; input := input c; eof := eof c; stalled := stalled c;
                  interrupted := interrupted c; inflight := inflight c; hs := hs c; started := started c;
                  ended := ended c; unbind_seen := unbind_seen c; read_after_unbind := read_after_unbind c;
-                 sock_closed := sock_closed c; onclose := onclose c; wgdone := wgdone c |} in
+                 sock_closed := sock_closed c; onclose := onclose c; wgdone := wgdone c;
+                 sent := sent c + (if cancelled s && delivered c then 1 else 0) |} in
     if cancelled s then
       (* "server stopping" notice, then return *)
       if can_write c then Some (set_pc c1 (CTeardown (teardown_of cfg)), ENone) else None
@@ -210,7 +217,7 @@ Definition conn_step (cfg : config) (s : state) (c : conn) : option (conn * effe
           {| cid := cid c; pc := p; nreq := nreq c; nread := S (nread c); input := rest; eof := eof c; stalled := stalled c;
              interrupted := interrupted c; inflight := inf; hs := h; started := st; ended := ended c;
              unbind_seen := ub; read_after_unbind := after; sock_closed := sock_closed c;
-             onclose := onclose c; wgdone := wgdone c |} in
+             onclose := onclose c; wgdone := wgdone c; sent := sent c |} in
       match it with
       | IReq KNormal script =>
         Some (base CLoopTop (started c ++ [(nreq c, KNormal)]) (S (inflight c)) (hs c ++ [(nreq c, script)]) (unbind_seen c), ENone)
@@ -228,7 +235,7 @@ Definition conn_step (cfg : config) (s : state) (c : conn) : option (conn * effe
                  interrupted := interrupted c; inflight := inflight c; hs := hs c; started := started c;
                  ended := ended c ++ [nreq c]; unbind_seen := unbind_seen c;
                  read_after_unbind := read_after_unbind c; sock_closed := sock_closed c; onclose := onclose c;
-                 wgdone := wgdone c |} in
+                 wgdone := wgdone c; sent := sent c |} in
     match k with
     | KUnbind => Some (set_pc c1 (CTeardown (teardown_of cfg)), ENone)
     | _ => Some (set_pc c1 CLoopTop, ENone)
@@ -243,8 +250,12 @@ Definition conn_step (cfg : config) (s : state) (c : conn) : option (conn * effe
       Some ({| cid := cid c; pc := CInline k rest; nreq := nreq c; nread := nread c; input := inp; eof := eof c; stalled := stalled c;
                interrupted := interrupted c; inflight := inflight c; hs := hs c; started := started c;
                ended := ended c; unbind_seen := unbind_seen c; read_after_unbind := read_after_unbind c;
-               sock_closed := sock_closed c; onclose := onclose c; wgdone := wgdone c |}, ENone)
-    | _ => Some (set_pc c (CInline k rest), ENone)
+               sock_closed := sock_closed c; onclose := onclose c; wgdone := wgdone c; sent := sent c |}, ENone)
+    | _ =>
+      Some ({| cid := cid c; pc := CInline k rest; nreq := nreq c; nread := nread c; input := input c; eof := eof c; stalled := stalled c;
+               interrupted := interrupted c; inflight := inflight c; hs := hs c; started := started c;
+               ended := ended c; unbind_seen := unbind_seen c; read_after_unbind := read_after_unbind c;
+               sock_closed := sock_closed c; onclose := onclose c; wgdone := wgdone c; sent := sent c + frame_of c h |}, ENone)
     end
   | CTeardown [] => Some (set_pc c CDone, ENone)
   | CTeardown (t :: rest) =>
@@ -253,13 +264,13 @@ Definition conn_step (cfg : config) (s : state) (c : conn) : option (conn * effe
       Some ({| cid := cid c; pc := CTeardown rest; nreq := nreq c; nread := nread c; input := input c; eof := eof c; stalled := stalled c;
                interrupted := interrupted c; inflight := inflight c; hs := hs c; started := started c;
                ended := ended c; unbind_seen := unbind_seen c; read_after_unbind := read_after_unbind c;
-               sock_closed := sock_closed c; onclose := onclose c; wgdone := true |}, EWgDone)
+               sock_closed := sock_closed c; onclose := onclose c; wgdone := true; sent := sent c |}, EWgDone)
     | TWaitHandlers => if (inflight c =? 0)%nat then Some (set_pc c (CTeardown rest), ENone) else None
     | TSockClose =>
       Some ({| cid := cid c; pc := CTeardown rest; nreq := nreq c; nread := nread c; input := input c; eof := eof c; stalled := stalled c;
                interrupted := interrupted c; inflight := inflight c; hs := hs c; started := started c;
                ended := ended c; unbind_seen := unbind_seen c; read_after_unbind := read_after_unbind c;
-               sock_closed := true; onclose := onclose c; wgdone := wgdone c |}, ENone)
+               sock_closed := true; onclose := onclose c; wgdone := wgdone c; sent := sent c |}, ENone)
     | TUntrack => Some (set_pc c (CTeardown rest), ENone)      (* untrackConn: Stop's pass no longer reaches it *)
     | TOnClose =>
       if negb (has_onclose cfg) then Some (set_pc c (CTeardown rest), ENone)
@@ -268,7 +279,7 @@ Definition conn_step (cfg : config) (s : state) (c : conn) : option (conn * effe
                     stalled := stalled c; interrupted := interrupted c; inflight := inflight c; hs := hs c;
                     started := started c; ended := ended c; unbind_seen := unbind_seen c;
                     read_after_unbind := read_after_unbind c; sock_closed := sock_closed c;
-                    onclose := S (onclose c); wgdone := wgdone c |}, ENone)
+                    onclose := S (onclose c); wgdone := wgdone c; sent := sent c |}, ENone)
     end
   | CDone => None
   end.
@@ -290,7 +301,7 @@ Definition handler_step (cfg : config) (s : state) (c : conn) (r : nat) : option
         {| cid := cid c; pc := pc c; nreq := nreq c; nread := nread c; input := input c; eof := eof c; stalled := stalled c;
            interrupted := interrupted c; inflight := pred (inflight c); hs := others; started := started c;
            ended := ended c ++ [r]; unbind_seen := unbind_seen c; read_after_unbind := read_after_unbind c;
-           sock_closed := sock_closed c; onclose := onclose c; wgdone := wgdone c |} in
+           sock_closed := sock_closed c; onclose := onclose c; wgdone := wgdone c; sent := sent c |} in
     match sc with
     | [] => Some (finish, ENone)
     | h :: rest =>
@@ -303,14 +314,14 @@ Definition handler_step (cfg : config) (s : state) (c : conn) (r : nat) : option
                       interrupted := interrupted c; inflight := pred (inflight c); hs := others;
                       started := started c; ended := ended c; unbind_seen := unbind_seen c;
                       read_after_unbind := read_after_unbind c; sock_closed := sock_closed c;
-                      onclose := onclose c; wgdone := wgdone c |}, ENone)
+                      onclose := onclose c; wgdone := wgdone c; sent := sent c |}, ENone)
         else Some (c, EDie)
       | _ =>
         Some ({| cid := cid c; pc := pc c; nreq := nreq c; nread := nread c; input := input c; eof := eof c; stalled := stalled c;
                  interrupted := interrupted c; inflight := inflight c; hs := others ++ [(r, rest)];
                  started := started c; ended := ended c; unbind_seen := unbind_seen c;
                  read_after_unbind := read_after_unbind c; sock_closed := sock_closed c; onclose := onclose c;
-                 wgdone := wgdone c |}, ENone)
+                 wgdone := wgdone c; sent := sent c + frame_of c h |}, ENone)
       end
     end
   end.
@@ -411,7 +422,7 @@ Definition interrupt (c : conn) : conn :=
   {| cid := cid c; pc := pc c; nreq := nreq c; nread := nread c; input := input c; eof := eof c; stalled := stalled c;
      interrupted := true; inflight := inflight c; hs := hs c; started := started c; ended := ended c;
      unbind_seen := unbind_seen c; read_after_unbind := read_after_unbind c;
-     sock_closed := sock_closed c; onclose := onclose c; wgdone := wgdone c |}.
+     sock_closed := sock_closed c; onclose := onclose c; wgdone := wgdone c; sent := sent c |}.
 (* is the connection still in the server's table (trackConn .. untrackConn)? *)
 Definition is_untrack (t : tstep) : bool := match t with TUntrack => true | _ => false end.
 Definition tracked (c : conn) : bool :=
@@ -428,17 +439,17 @@ Definition env_send (it : item) (c : conn) : conn :=
   {| cid := cid c; pc := pc c; nreq := nreq c; nread := nread c; input := input c ++ [it]; eof := eof c;
      stalled := stalled c; interrupted := interrupted c; inflight := inflight c; hs := hs c; started := started c;
      ended := ended c; unbind_seen := unbind_seen c; read_after_unbind := read_after_unbind c;
-     sock_closed := sock_closed c; onclose := onclose c; wgdone := wgdone c |}.
+     sock_closed := sock_closed c; onclose := onclose c; wgdone := wgdone c; sent := sent c |}.
 Definition env_close (c : conn) : conn :=
   {| cid := cid c; pc := pc c; nreq := nreq c; nread := nread c; input := input c; eof := true;
      stalled := stalled c; interrupted := interrupted c; inflight := inflight c; hs := hs c; started := started c;
      ended := ended c; unbind_seen := unbind_seen c; read_after_unbind := read_after_unbind c;
-     sock_closed := sock_closed c; onclose := onclose c; wgdone := wgdone c |}.
+     sock_closed := sock_closed c; onclose := onclose c; wgdone := wgdone c; sent := sent c |}.
 Definition env_stall (b : bool) (c : conn) : conn :=
   {| cid := cid c; pc := pc c; nreq := nreq c; nread := nread c; input := input c; eof := eof c;
      stalled := b; interrupted := interrupted c; inflight := inflight c; hs := hs c; started := started c;
      ended := ended c; unbind_seen := unbind_seen c; read_after_unbind := read_after_unbind c;
-     sock_closed := sock_closed c; onclose := onclose c; wgdone := wgdone c |}.
+     sock_closed := sock_closed c; onclose := onclose c; wgdone := wgdone c; sent := sent c |}.
 
 Definition stop_step (cfg : config) (s : state) (i : nat) : option state :=
   match nth_error (stops s) i with
